@@ -6,6 +6,7 @@
 
 #include "c12.h"
 #include "c14a.h"
+#include "c19.h"
 #include "conc.h"
 #include "engine.h"
 
@@ -17,6 +18,7 @@ struct CaseBox {
   ConcCase conc;
   C12Case c12;
   C14aCase c14a;
+  C19Case c19;
   J generic;              // engines that keep their case as JSON
 };
 
